@@ -384,7 +384,8 @@ def harnesses(tier):
 
 EXPECT = ["C06.positive_variance_gets_samples", "C06.sizes_are_rounded_up", "C06.real_valued_allocation_meets_budget_exactly",
           "C06.estimator_variance_within_budget", "C06.bias_tolerance_squared_plus_variance_share_within_rmse_squared",
-          "C06.never_simulates_above_maximum_level", "C06.every_level_has_its_optimal_size_within_1pct_on_return", "C06.returns_only_when_bias_test_passes_or_maximum_level_reached"]
+          "C06.never_simulates_above_maximum_level", "C06.every_level_has_its_optimal_size_within_1pct_on_return", "C06.returns_only_when_bias_test_passes_or_maximum_level_reached",
+          "C06.bias_test_is_defined_for_every_number_of_levels"]
 
 
 def main(tier):
